@@ -24,7 +24,7 @@ TIERS = {
     'quick': {'workers': 8, 'cases': 3600, 'timeout': 600},
     'thorough': {'workers': 16, 'cases': 30000, 'timeout': 3000},
 }
-REQUIRED_BUCKETS = ['shape:fn', 'shape:init', 'shape:new', 'shape:method', 'mark:positional', 'mark:keyword', 'mark:signature', 'mark:varkw-extra',
+REQUIRED_BUCKETS = ['posonly:filled', 'posonly:missing', 'shape:fn', 'shape:init', 'shape:new', 'shape:method', 'mark:positional', 'mark:keyword', 'mark:signature', 'mark:varkw-extra',
                     'mark:vararg-slot', 'outcome:filled', 'outcome:missing', 'outcome:missing-multiple', 'outcome:vararg-rejected',
                     'outcome:partially-filled', 'scope:nonapplicable-binding', 'scope:depth2+', 'reg:required-denylisted', 'reg:required-not-allowlisted',
                     'mark:signature-overridden-by-caller', 'outcome:missing-order-differs-from-call-order', 'name:ambiguous-bare-name', 'binding:falsy-value',
@@ -306,6 +306,13 @@ def iter_cases(ctx, rng, n):
   for i in range(n):
     if i % 12 == 11:
       yield gen_reg_case(rng)
+    elif i % 30 == 13:
+      # positional-only parameters `def f(a, b, /, c=..)`: the marker can only arrive positionally
+      npo = rng.choice([1, 2, 3])
+      marks = sorted(rng.sample(range(npo), rng.randrange(1, npo + 1)))
+      yield {'kind': 'posonly', 'npo': npo, 'marks': marks, 'bound': [m for m in marks if rng.random() < 0.75],
+             'scope': rng.choice(['', 'a', 'a/b']), 'bind_scope_depth': rng.randrange(3), 'shape': rng.choice(['fn', 'init']),
+             'unrelated': rng.random() < 0.5, 'api': rng.choice(['configurable', 'external'])}
     elif i % 18 == 4:
       yield gen_history_case(rng, i)
     elif i % 10 == 7:
@@ -627,8 +634,58 @@ def run_reg(ctx, case):
   ctx.fp('reg', spec['shape'], spec['api'], case['mode'], len(case.get('extra', [])))
 
 
+_S = {}
+
+
+def run_posonly(ctx, case):
+  import gin
+  gin.clear_config()
+  _S['posonly_n'] = _S.get('posonly_n', 0) + 1
+  name = 'c10po%d_w%d' % (_S['posonly_n'], ctx.widx)
+  names = ['p%d' % i for i in range(case['npo'])]
+  g = {}
+  if case['shape'] == 'fn':
+    exec('def %s(%s, /, c="dc"):\n  return (%s, c)\n' % (name, ', '.join(names), ', '.join(names)), g)
+  else:
+    exec('class %s:\n  def __init__(self, %s, /, c="dc"):\n    self.got = (%s, c)\n' % (name, ', '.join(names), ', '.join(names)), g)
+  if case['api'] == 'configurable':
+    conf = gin.configurable(name, module='c10.po')(g[name])
+  else:
+    conf = gin.external_configurable(g[name], name, module='c10.po')
+  comps = [c for c in case['scope'].split('/') if c]
+  bscope = '/'.join(comps[:min(case['bind_scope_depth'], len(comps))])
+  for m in case['bound']:
+    gin.bind_parameter((bscope, 'c10.po.' + name, names[m]), 'bound-%d' % m)
+  if case['unrelated']:
+    gin.bind_parameter(('', 'c10.po.' + name, 'c'), 'bound-c')
+  args = [gin.REQUIRED if i in case['marks'] else 'caller-%d' % i for i in range(case['npo'])]
+  missing = [names[m] for m in case['marks'] if m not in case['bound']]
+  ctx.bucket('posonly:' + ('missing' if missing else 'filled'))
+  ctx.fp('posonly', case['npo'], tuple(case['marks']), tuple(case['bound']), case['scope'], case['bind_scope_depth'], case['shape'], case['api'])
+  try:
+    with gin.config_scope(case['scope'] or None):
+      res = conf(*args)
+    got = res if case['shape'] == 'fn' else res.got
+    exc = None
+  except Exception as e:  # pylint: disable=broad-except
+    got, exc = None, e
+  ctx.count('oracle_evals')
+  if missing:
+    ok = isinstance(exc, RuntimeError) and all(repr(x) in str(exc) or x in str(exc) for x in missing) and not any(
+        ("'%s'" % names[m]) in str(exc) for m in case['bound'])
+    ctx.check(ok, 'posonly-required-missing-not-reported', 'positional-only %s called with gin.REQUIRED at %r, bound %r under %r (active %r): expected a '
+              'RuntimeError naming exactly %r, got %r / %r' % (names, case['marks'], case['bound'], bscope, case['scope'], missing, exc, got))
+  else:
+    want = tuple(('bound-%d' % i) if i in case['marks'] else 'caller-%d' % i for i in range(case['npo'])) + ('bound-c' if case['unrelated'] else 'dc',)
+    ctx.check(exc is None and got == want, 'posonly-required-not-filled', 'positional-only %s called with gin.REQUIRED at %r, all bound under %r (active %r): '
+              'expected %r, got %r / %r' % (names, case['marks'], bscope, case['scope'], want, got, exc))
+  gin.clear_config()
+
+
 def run_case(ctx, case):
   import gin
+  if case['kind'] == 'posonly':
+    return run_posonly(ctx, case)
   if case['kind'] == 'reg':
     return run_reg(ctx, case)
   if case['kind'] == 'history':
